@@ -3,12 +3,16 @@ package c04
 import (
 	"bytes"
 	"encoding/binary"
+	"encoding/json"
 	"fmt"
+	"strings"
 	"testing"
+	"time"
 
 	"github.com/xelaj/mtproto/internal/mtproto/messages"
 	"github.com/xelaj/mtproto/telegram/verifh/hx"
 	"github.com/xelaj/mtproto/telegram/verifh/ref"
+	"github.com/xelaj/mtproto/telegram/verifh/scen"
 	"pgregory.net/rapid"
 	"verif/evid"
 )
@@ -303,6 +307,19 @@ func faults(t *rapid.T, b base) (Case, error) {
 
 func TestC04(t *testing.T) {
 	if p := hx.ReplayPath(); p != "" {
+		var cl struct{ ClientLevel *clientCase }
+		if err := evid.LoadReplay(p, &cl); err == nil && cl.ClientLevel != nil {
+			run.Case(true, 1)
+			run.Case(true, 2)
+			if err := evalClient(*cl.ClientLevel); err != nil {
+				if strings.HasPrefix(err.Error(), "INFRA:") {
+					t.Fatalf("%v", err)
+				}
+				run.Violation(map[string]any{"ClientLevel": cl.ClientLevel}, err.Error())
+				t.Fatalf("replay fails: %v", err)
+			}
+			return
+		}
 		var c Case
 		if err := evid.LoadReplay(p, &c); err != nil {
 			t.Fatal(err)
@@ -322,6 +339,97 @@ func TestC04(t *testing.T) {
 		run.Sample(map[string]any{"body_len": len(b.Env.Body), "msg_id": b.Env.MsgID, "seq_no": b.Env.SeqNo, "last_fault": c.Fault})
 		if err != nil {
 			hx.Fail(t, run, c, err)
+		}
+	})
+}
+
+// ---------- client level: forged / corrupted packets sent to a live client ----------
+
+type clientCase struct {
+	Scenario *scen.Scenario
+	Attack   string
+}
+
+func judgeClient(c clientCase, res *scen.Result, runErr error) (string, error) {
+	if runErr != nil {
+		return "inconclusive", fmt.Errorf("INFRA: %v", runErr)
+	}
+	if res.Died {
+		return "violation", fmt.Errorf("[%s] the packet killed the client process: %s", c.Attack, scen.PanicSite(res.Stderr))
+	}
+	if !res.Connected {
+		return "inconclusive", fmt.Errorf("INFRA: not connected: %s", res.ConnectErr)
+	}
+	if res.Stall != nil {
+		if res.Stall.Verdict == "STALL" || res.Stall.Verdict == "IDLE" {
+			return "violation", fmt.Errorf("[%s] after the packet the genuine answer is never delivered (receive loop %s at %s)", c.Attack, res.Stall.Verdict, res.Stall.LoopAt)
+		}
+		return "inconclusive", fmt.Errorf("INFRA: unfinished: %s", res.Stall.LoopAt)
+	}
+	for _, cr := range res.Calls {
+		if cr.Kind == "probe" {
+			if !cr.OK {
+				return "violation", fmt.Errorf("[%s] a later request did not complete: %+v", c.Attack, cr)
+			}
+			continue
+		}
+		want := scen.Expected(scen.ReqSpec{Tag: cr.Tag, Kind: cr.Kind})
+		if !cr.OK || cr.Value != want {
+			return "violation", fmt.Errorf("[%s] the call with tag %d received %q (err %q) - the key holder sealed %s", c.Attack, cr.Tag, cr.Value, cr.Err, want)
+		}
+	}
+	for _, n := range res.Notes {
+		if strings.Contains(n, "not pending") || strings.Contains(n, "no connection") || strings.Contains(n, "warm-up") {
+			return "inconclusive", fmt.Errorf("INFRA: %s", n)
+		}
+	}
+	return "ok", nil
+}
+
+type rapidSource struct{ t *rapid.T }
+
+func (r rapidSource) Bytes(label string, n int) []byte { return hx.FixedBytes(r.t, label, n) }
+func (r rapidSource) Int(label string, n int) int      { return rapid.IntRange(0, n-1).Draw(r.t, label) }
+
+func evalClient(c clientCase) error {
+	res, runErr := scen.RunChild(c.Scenario, 120*time.Second)
+	verdict, err := judgeClient(c, res, runErr)
+	b, _ := json.Marshal(c.Scenario.RPC.Steps)
+	run.Case(verdict != "inconclusive", evid.Hash(b, c.Scenario.Resume.AuthKey), "client:"+c.Attack, "client-verdict:"+verdict)
+	return err
+}
+
+func TestC04Client(t *testing.T) {
+	if p := hx.ReplayPath(); p != "" {
+		return // client-level replays run through TestC04's replay entry (kind field)
+	}
+	rapid.Check(t, func(t *rapid.T) {
+		s := rapidSource{t}
+		sc := scen.NewResumed(s)
+		kind := rapid.SampledFrom(scen.ReqKinds).Draw(t, "kind")
+		tag := 2 * rapid.IntRange(1, 500).Draw(t, "tag")
+		attack := rapid.SampledFrom([]string{"forged-plain-result", "corrupted-result", "corrupted-result"}).Draw(t, "attack")
+		push := &scen.PushSpec{Kind: attack, Arg: int64(tag)}
+		if attack == "corrupted-result" {
+			bit := rapid.IntRange(0, 2000).Draw(t, "bit")
+			push.Body = []byte{byte(bit >> 8), byte(bit)}
+		}
+		sc.RPC.Steps = []scen.Step{
+			{Op: "call", Calls: []scen.CallSpec{{Caller: 0, Reqs: []scen.ReqSpec{{Tag: tag, Kind: kind}}}}},
+			{Op: "await-requests", N: 1},
+			{Op: "push", Push: push},
+			{Op: "sleep", Ms: 5},
+			{Op: "answer", Items: []scen.AnsItem{{Tag: tag}}},
+			{Op: "await-calls"},
+			{Op: "probe"},
+		}
+		c := clientCase{Scenario: sc, Attack: attack}
+		if err := evalClient(c); err != nil {
+			if strings.HasPrefix(err.Error(), "INFRA:") {
+				t.Skipf("%v", err)
+			}
+			p := run.Violation(map[string]any{"ClientLevel": c}, err.Error())
+			t.Fatalf("violation (replay %s): %v", p, err)
 		}
 	})
 }
